@@ -10,7 +10,9 @@ import (
 	"bufio"
 	"bytes"
 	"crypto/sha256"
+	"errors"
 	"fmt"
+	"io"
 	"os"
 	"path/filepath"
 	"strings"
@@ -51,8 +53,12 @@ func errClass(err error) string {
 		return "nil"
 	case isPanic(err):
 		return "panic"
-	case strings.Contains(err.Error(), "EOF"):
+	case errors.Is(err, io.ErrUnexpectedEOF):
+		return "unexpected-eof"
+	case errors.Is(err, io.EOF):
 		return "eof"
+	case strings.Contains(err.Error(), "EOF"):
+		return "eof-text"
 	default:
 		return "invalid"
 	}
@@ -252,6 +258,18 @@ func c15case(fail func(string, ...any), tr *transcript, k *gen.Kind, vals []ref.
 		tr.line("%s|dec-one-bad-bool@%d|%s", id, pos, errClass(err))
 		if err == nil || isPanic(err) {
 			fail("Bool: DecodeColumn of %d rows accepts the byte %#x at row %d (returned %v)", len(vals), bad[pos], pos, err)
+		}
+	}
+	// Input that ends exactly after k complete rows (0 < k < rows) and after none: the two builds
+	// must fail the same way (transcript), and must fail.
+	if w > 0 && len(vals) >= 2 {
+		for _, kRows := range []int{0, 1 + len(junk)%(len(vals)-1)} {
+			target := k.New()
+			err := libDecodeColumn(target.Column(), want.B[:kRows*w], len(vals))
+			tr.line("%s|dec-rows%d-of-%d|%s", id, kRows, len(vals), errClass(err))
+			if err == nil || isPanic(err) {
+				fail("%s: DecodeColumn of %d complete rows where %d were announced returned %v", k.T.Name, kRows, len(vals), err)
+			}
 		}
 	}
 	// Short input.
